@@ -157,8 +157,22 @@ impl TryFrom<&Value> for f64 {
                 Ok(f64::try_from(&Value::Text(s))?)
             }
             Value::Number(v) => Ok(*v),
-            Value::Text(v) => Ok(v.parse::<f64>().unwrap_or(f64::NAN)),
+            Value::Text(v) => Ok(number_from_str(v)),
         }
+    }
+}
+
+/// Optional white space, an optional minus sign, a Number ([30]) and optional white space; anything else is NaN.
+fn number_from_str(value: &str) -> f64 {
+    let v = value.trim_matches([' ', '\t', '\r', '\n']);
+    let digits = v.strip_prefix('-').unwrap_or(v);
+    let valid = digits.chars().any(|c| c.is_ascii_digit())
+        && digits.chars().all(|c| c.is_ascii_digit() || c == '.')
+        && digits.chars().filter(|c| *c == '.').count() <= 1;
+    if valid {
+        v.parse::<f64>().unwrap_or(f64::NAN)
+    } else {
+        f64::NAN
     }
 }
 
